@@ -1004,7 +1004,7 @@ static void x_once(const plan_t *p)
             break;
         }
         case O_CLEAR: {
-            int had_buckets, nullclr = (o->a[2] >> 3) % 5 == 1 && p->mode != 4;       /* "The function may be NULL": the elements stay the caller's */
+            int had_buckets, nullclr = ((uint64_t)k + o->a[1] % 7) % 5 == 1 && p->mode != 4;       /* "The function may be NULL": the elements stay the caller's */
             unsigned libblocks = simheap_live_count(TAG_LIB);
             int j;
             npre = m->nlive; memcpy(pre, m->live, sizeof(pre[0]) * (size_t)npre);
